@@ -15,7 +15,11 @@ CONSTANTS MaxOps,       \* client operations per behaviour
           MaxClock,
           Topics, TTLs,
           MaxImports,
-          Gen           \* TRUE: record the operation list in hist (behaviour generation)
+          Gen,          \* TRUE: record the operation list in hist (behaviour generation)
+          Dev           \* "none", or a named deviation of the mechanism that the invariants must reject (vacuity guard,
+                        \* thorough tier): "reg-before-refusal" (an import registers its context before the refusal
+                        \* check, seeded changes C07-c / C20-d), "import-overwrites" (a different frame under a stored id
+                        \* replaces it, defect 13 before its fix)
 
 BOGUS == 3               \* an id nobody ever stored (ts 0, k 3)
 M0 == "none"
@@ -200,12 +204,13 @@ OpImport(id, c, t, ttl) ==
   /\ UNCHANGED <<gcq, clock, k, headKs, eph, lastApp, met>>
   /\ LET f == [topic |-> t, ctx |-> c, ttl |-> ttl, meta |-> M0, hash |-> M0]
          conflict == id \in Ids /\ stream[id] # f
-         rejected == t \in NulTopics \/ conflict
+         rejected == t \in NulTopics \/ (conflict /\ Dev # "import-overwrites")
      IN
      /\ bad' = bad \cup ImportVerdict(G, id, f, ~rejected)
      /\ IF rejected
         THEN \* NUL topic, or a different frame already lives under this id: rejected whole, nothing written
-             UNCHANGED <<stream, idxT, idxC, acc, contexts, imported, owed, evictable, removed, gone>>
+             /\ contexts' = IF Dev = "reg-before-refusal" /\ t = XC /\ c = Z THEN contexts \cup {id} ELSE contexts
+             /\ UNCHANGED <<stream, idxT, idxC, acc, imported, owed, evictable, removed, gone>>
         ELSE /\ stream' = Put(stream, id, f)
              /\ idxT' = idxT \cup {<<c, t, id>>}
              /\ idxC' = idxC \cup {<<c, id>>}
